@@ -22,6 +22,7 @@ text being `genNonce … "0123456789" CodeLen (rnd k)` for an abstract random so
 -/
 namespace Nv.C19
 
+/-- strings are BYTE strings, as in Go (`len`, slicing and `%s` work on bytes): a list of `Char`s below 256, one per byte -/
 abbrev Str := List Char
 
 inductive KeyFmt
@@ -274,5 +275,30 @@ def digits : Str := ['0', '1', '2', '3', '4', '5', '6', '7', '8', '9']
 def Code.text (b : NonceBound) (pr : Params) (rnd : Nat → List Nat) : Code → Option Str
   | .lit s => some s
   | .sym k => genNonce b digits pr.codeLen.toNat (rnd k)
+
+/-! ### bulk: many sends to distinct generated pairs, then one pair is verified and re-sent -/
+
+def bulkArea : Str := ['8', '6']
+def bulkPhone (i : Nat) : Str := dec (13900000000 + i)
+
+/-- mock mode, 4-character codes, MaxCount 3, MaxVerifyCount 3, and all three durations 9223372037 ms ("never") -/
+def bulkParams (cap : Nat) : Params := ⟨cap, true, 4, 3, 3, 9223372037, 9223372037, 9223372037, false⟩
+
+/-- sends to the generated pairs number m, m+1, …, m+cnt−1, all at clock reading 0 -/
+def bulkSends : Nat → Nat → List Op
+  | _, 0 => []
+  | m, cnt + 1 => .send 0 bulkArea (bulkPhone m) :: bulkSends (m + 1) cnt
+
+/-- `bulk cap n k` run on the model: n sends into an empty cache of capacity `cap`, then pair k is verified with the code and
+    hash of its send, then re-sent -/
+def bulkRun (c : Cfg) (cap n k : Nat) : VerifyResult × SendResult :=
+  let pr := bulkParams cap
+  let s := Nv.final (step c pr) State.init (bulkSends 0 n)
+  let v := verify c pr s bulkArea (bulkPhone k) (genCode pr (bulkPhone k) (k + 1)) (k + 1)
+  (v.2, (send c pr v.1 bulkArea (bulkPhone k)).2)
+
+/-- the closed form: pair k is still cached iff it was sent (k < n) and fewer than `cap` sends followed it -/
+def bulkClosed (cap n k : Nat) : VerifyResult × SendResult :=
+  if k < n ∧ n - 1 - k < cap then (.ok, .tooFreq) else (.notExist, .ok (n + 1))
 
 end Nv.C19
